@@ -47,6 +47,20 @@ def encList (l : List Str) : String := " ".intercalate (l.map encTok)
 
 def b01 (b : Bool) : String := if b then "1" else "0"
 
+/-- state of a handler at interpreter exit: the first calls already went through its sink – directly,
+or (enqueue) through the worker thread, which may have ended early; then nobody reads the queue -/
+def atExit (enq own : Bool) (q : Nat) (calls : List Call) (sink0 : Sink) : Handler :=
+  let direct := calls.take (calls.length - q)
+  let queued := calls.drop (calls.length - q)
+  if enq then
+    let (k, unread) := workerRun Gen.workerOps sink0 direct
+    let alive := unread.isEmpty
+    { enqueue := true, owner := own, queue := if alive then queued else [], sink := k,
+      stopped := false, sentinel := false, joined := false, hung := false }
+  else
+    { enqueue := false, owner := own, queue := [], sink := calls.foldl Sink.write sink0,
+      stopped := false, sentinel := false, joined := false, hung := false }
+
 def step (line : String) : String :=
   match line.splitOn " " with
   | "crash" :: e :: rot :: comp :: ret :: k :: j :: rest =>
@@ -70,10 +84,7 @@ def step (line : String) : String :=
     match bit enq, bit own, bit rot, bit comp, bit ret, q.toNat?, parseCalls Gen.fileTerminator rest with
     | some enq, some own, some rot, some comp, some ret, some q, some calls =>
       let q := if enq then min q calls.length else 0
-      let direct := calls.take (calls.length - q)
-      let h : Handler := { enqueue := enq, owner := own, queue := calls.drop (calls.length - q),
-                           sink := direct.foldl Sink.write (.file (FileSink.new none rot comp ret)),
-                           stopped := false, sentinel := false, joined := false, hung := false }
+      let h : Handler := atExit enq own q calls (.file (FileSink.new none rot comp ret))
       let lg := interpreterExit { handlers := [h], removed := [] }
       let h' := match lg.removed, lg.handlers with
         | x :: _, _ => x
@@ -89,11 +100,8 @@ def step (line : String) : String :=
     match bit enq, bit own, bit fl, bit stoppable, q.toNat?, parseCalls Gen.streamTerminator rest with
     | some enq, some own, some fl, some stoppable, some q, some calls =>
       let q := if enq then min q calls.length else 0
-      let direct := calls.take (calls.length - q)
       let s0 : Stream := StreamSink.new { os := [], pending := [], lineBuffering := false, closed := false } fl false false
-      let h : Handler := { enqueue := enq, owner := own, queue := calls.drop (calls.length - q),
-                           sink := direct.foldl Sink.write (.stream s0 stoppable 0),
-                           stopped := false, sentinel := false, joined := false, hung := false }
+      let h : Handler := atExit enq own q calls (.stream s0 stoppable 0)
       let lg := interpreterExit { handlers := [h], removed := [] }
       let h' := match lg.removed, lg.handlers with
         | x :: _, _ => x
